@@ -89,6 +89,11 @@ impl JpegBitstreamData {
         Ok(())
     }
 
+    /// Returns whether the data section is fully decompressed.
+    pub fn is_complete(&self) -> bool {
+        self.data_stream.get_ref().len() == self.header.expected_data_len()
+    }
+
     /// Creates a reconstruction context with given JPEG XL frame and metadata.
     ///
     /// `icc_profile`, `exif` or `xmp` can be empty if no corresponding metadata was found.
@@ -100,6 +105,10 @@ impl JpegBitstreamData {
         xmp: &'meta [u8],
         pool: &jxl_threadpool::JxlThreadPool,
     ) -> Result<JpegBitstreamReconstructor<'jbrd, 'frame, 'meta>> {
+        if !self.is_complete() {
+            return Err(Error::ReconstructionDataIncomplete);
+        }
+
         let Self {
             ref header,
             ref data_stream,
